@@ -23,7 +23,7 @@ def run_ms(ctx, kind):
     if kind == "wait-c03":
         kind = "wait"
     if kind == "both-c17":
-        kind = "both"
+        kind = "wait"       # waits only: every fourth case with T >= 3000 is then a request granted while parked (its dead entry must be dropped)
     if ctx.lake_build(["Slock.Properties.C05Ms"], exe=True):
         ctx.audit("Slock.Properties.C05Ms", MS_THEOREMS)
     exe = ctx.build_harness("server", only=MS_FILES)
